@@ -165,7 +165,7 @@ fn parse_unverified<'a>(der_input: &'a [u8]) -> Result<P2pCertificate<'a>, webpk
             // }
             let public_key = RemotePublicKey::from_protobuf_encoding(&public_key_protobuf)
                 .map_err(|_| webpki::Error::UnknownIssuer)?;
-            let peer_id = PeerId::from_public_key_protobuf(&public_key_protobuf);
+            let peer_id = public_key.to_peer_id(&public_key_protobuf);
             let ext = P2pExtension {
                 public_key,
                 signature,
